@@ -42,6 +42,9 @@ mut('m23_filename_decode_ignore', 'exceptions.py', "            return _decode_f
 mut('m24_aux_str_formats_message', 'auxfile.py', "        location = 'in line {0}: '.format(lineno) if lineno else ''\n        return location + base_message", "        template = 'in line {0}: ' + base_message if lineno else base_message\n        return template.format(lineno)")
 mut('m25_repeated_entry_percent_twice', 'database/__init__.py', "report_error(BibliographyDataError('repeated bibliography entry: %s' % key))", "report_error(BibliographyDataError(('repeated bibliography entry: %s' % key) % ()))")
 mut('m26_format_error_formats_line', 'errors.py', "    lines.append(u'{0}{1}'.format(prefix, str(exception)))", "    lines.append((prefix + str(exception)).format())")
+# the scanner without line numbers (NameFormatParser) is forgotten in get_error_context
+mut('m27_lineless_context_typeerror', 'scanner.py', "        if error_lineno is not None:\n            error_lineno0 = error_lineno - 1", "        if True:\n            error_lineno0 = error_lineno - 1")
+mut('m28_lineless_str', 'scanner.py', "pos = u' in line {0}'.format(self.lineno) if self.lineno is not None else ''", "pos = u' in line {0}'.format(self.lineno + 0)")
 # harmless
 mut('h1_refactor_capture', 'errors.py', """    global captured_errors
     captured_errors = []
